@@ -282,7 +282,7 @@ Definition seg_value (X : xfun) (sh cu s t pos : Q) : res Q :=
           else do e2 <- inex (x_exp X cu); Ok (s + (t - s) * ((1 - e1) / (1 - e2)))) else
   do b <- shape_is sh "squared";
   if b then (do a <- inex (x_sqrt X s); do c <- inex (x_sqrt X t);
-             let l := pos * (c - a) + a in Ok (l * l)) else
+             let l := pos * (c - a) + a in Ok (l * Qabs l)) else      (* sign-keeping square, see notes/C19.md *)
   do b <- shape_is sh "cubed";
   if b then (do a <- inex (x_pow X s env_cub_exponent); do c <- inex (x_pow X t env_cub_exponent);
              let l := pos * (c - a) + a in Ok (l * l * l)) else
